@@ -3,6 +3,7 @@ package c06kit
 import (
 	"bytes"
 	"context"
+	"encoding/binary"
 	"errors"
 	"fmt"
 	"io"
@@ -18,6 +19,7 @@ import (
 
 	"github.com/celestiaorg/go-libp2p-messenger/serde"
 	libshare "github.com/celestiaorg/go-square/v4/share"
+	"github.com/celestiaorg/rsmt2d"
 
 	vk "github.com/celestiaorg/celestia-node/internal/verifkit"
 	"github.com/celestiaorg/celestia-node/share/eds"
@@ -249,7 +251,7 @@ func GenScript(t *rapid.T, label string, o ScriptOpts) []string {
 	kinds := []string{
 		"honest", "honest", "honest", "honest",
 		"other-id", "other-id", "other-id", "other-square", "other-square", "other-square",
-		"truncated", "extended", "repeated", "garbled", "garbled", "empty-body",
+		"truncated", "extended", "repeated", "garbled", "garbled", "empty-body", "structural", "structural",
 		"not-found", "not-found", "internal", "unknown-status", "invalid-status",
 		"reset-pre", "reset-post", "reset-mid", "rate-limited",
 	}
@@ -298,6 +300,17 @@ func PrepareItem(t *rapid.T, label string, r Req, i int, id WireID, sq, sib *vk.
 		if rapid.IntRange(0, 3).Draw(t, l+".chunked") == 0 {
 			st.Chunk = rapid.IntRange(1, 64).Draw(t, l+".chunk")
 		}
+		if bounds := messageBoundaries(body); r.Kind == "nd" && len(bounds) >= 3 &&
+			(kind == "other-id" || kind == "other-square" || kind == "garbled" || kind == "extended" || kind == "repeated") &&
+			rapid.IntRange(0, 2).Draw(t, l+".rowprefix") == 0 {
+			// a namespace that spans several rows: answer with a prefix of the row messages (well-formed
+			// on the wire, incomplete)
+			st.Kind = "structural:nd-row-prefix"
+			st.Data = append(append([]byte(nil), okFrame...), body[:bounds[rapid.IntRange(1, len(bounds)-2).Draw(t, l+".rows")]]...)
+			st.Honest = false
+			it.Steps = append(it.Steps, st)
+			continue
+		}
 		switch kind {
 		case "honest":
 			st.Data = honest
@@ -321,7 +334,49 @@ func PrepareItem(t *rapid.T, label string, r Req, i int, id WireID, sq, sib *vk.
 				return nil, err
 			}
 			st.Data = append(append([]byte(nil), okFrame...), b...)
+		case "structural":
+			// forgeries that stay well-formed on the wire: namespace data cut at a row-message
+			// boundary (a prefix of the rows), a sample of another row of the requested column under an
+			// axis value that is neither ROW nor COL; other request kinds fall back to other-square
+			var b []byte
+			switch r.Kind {
+			case "nd":
+				bounds := messageBoundaries(body)
+				if len(bounds) >= 3 { // at least two messages
+					b = body[:bounds[rapid.IntRange(1, len(bounds)-2).Draw(t, l+".rows")]]
+					st.Kind = "structural:nd-row-prefix"
+				}
+			case "samples":
+				c := r.Coords[i]
+				w := sq.Width()
+				if w > 1 {
+					orow := (c.Row + 1 + rapid.IntRange(0, w-2).Draw(t, l+".drow")) % w
+					acc := &eds.Rsmt2D{ExtendedDataSquare: sq.EDS}
+					if smp, err := acc.SampleForProofAxis(shwap.SampleCoords{Row: orow, Col: c.Col}, rsmt2d.Col); err == nil {
+						smp.ProofType = rsmt2d.Axis(rapid.SampledFrom([]int{-1, 2, 7}).Draw(t, l+".axis"))
+						var buf bytes.Buffer
+						if _, err := smp.WriteTo(&buf); err == nil {
+							b = buf.Bytes()
+							st.Kind = "structural:sample-invalid-axis"
+						}
+					}
+				}
+			}
+			if b == nil {
+				st.Kind = "other-square"
+				b, err = shrexBody(sib, id)
+				if err != nil {
+					return nil, err
+				}
+			}
+			st.Data = append(append([]byte(nil), okFrame...), b...)
 		case "truncated":
+			if bounds := messageBoundaries(body); r.Kind == "nd" && len(bounds) >= 3 && rapid.Bool().Draw(t, l+".atboundary") {
+				// cut exactly at a row-message boundary: a well-formed but incomplete answer
+				st.Kind = "structural:nd-row-prefix"
+				st.Data = append(append([]byte(nil), okFrame...), body[:bounds[rapid.IntRange(1, len(bounds)-2).Draw(t, l+".rows")]]...)
+				break
+			}
 			st.Data = append(append([]byte(nil), okFrame...), prefix(l+".cut")...)
 		case "extended":
 			ext := rapid.SliceOfN(rapid.Byte(), 1, 16).Draw(t, l+".ext")
@@ -739,4 +794,20 @@ func NewItem(id WireID, desc string, steps ...*Step) (*Item, error) {
 		return nil, err
 	}
 	return &Item{Proto: id.Name(), Key: string(key), Desc: desc, Steps: steps}, nil
+}
+
+// messageBoundaries returns the offsets at which the uvarint-length-prefixed messages of b start
+// or end: 0, end of message 1, end of message 2, ...
+func messageBoundaries(b []byte) []int {
+	out := []int{0}
+	off := 0
+	for off < len(b) {
+		l, n := binary.Uvarint(b[off:])
+		if n <= 0 || off+n+int(l) > len(b) {
+			break
+		}
+		off += n + int(l)
+		out = append(out, off)
+	}
+	return out
 }
